@@ -830,11 +830,33 @@ def main(pid, build_cases, files, replays=None, level="model_checking", notes=No
     ap.add_argument("--jobs", type=int, default=None)
     args = ap.parse_args(argv)
     seed = int(os.environ.get("VERIF_SEED", "0") or 0)
+    replay_only = None
     if args.replay:
-        return do_replay(pid, args.replay, replays or {})
+        # a replay file names the obligation that failed: the case it belongs to is decided again on the CURRENT tree
+        # (symbolic run, query, and - if the solver still finds a witness - the replay on the real code)
+        try:
+            rec = json.load(open(args.replay))
+        except Exception as e:
+            print("cannot read %s: %s" % (args.replay, e))
+            return 2
+        ob = rec.get("obligation", "")
+        print("replaying obligation: %s" % ob)
+        print("recorded witness/replay: %s" % json.dumps(rec.get("replay"))[:600])
+        replay_only = ob
     t0 = time.time()
     auto_pristine(sys.modules[build_cases.__module__])
     cases = build_cases(args.tier)
+    if replay_only is not None:
+        names = {}
+        for tier_ in ("quick", "thorough"):
+            for c in build_cases(tier_):
+                names.setdefault(c[0], c)
+        hit = [c for n_, c in names.items() if replay_only == n_ or replay_only.startswith(n_ + "/")]
+        if not hit:
+            print("no case of %s matches this obligation" % pid)
+            return 2
+        hit.sort(key=lambda c: -len(c[0]))
+        cases = hit[:1]
     if args.only:
         cases = [c for c in cases if fnmatch.fnmatch(c[0], args.only)]
     case_timeout = 300 if args.tier == "quick" else 3600
@@ -917,7 +939,8 @@ def main(pid, build_cases, files, replays=None, level="model_checking", notes=No
                     wall_s=round(wall, 2), violations=len(new_viol),
                     known_findings_reported=sorted(seen_known))
     os.makedirs(os.path.join(VERIF, "evidence"), exist_ok=True)
-    json.dump(evidence, open(os.path.join(VERIF, "evidence", "%s.json" % pid), "w"), indent=1, default=str)
+    if replay_only is None and not args.only:
+        json.dump(evidence, open(os.path.join(VERIF, "evidence", "%s.json" % pid), "w"), indent=1, default=str)
 
     print("%s tier=%s cases=%d obligations=%d discharged=%d inconclusive=%d known=%d paths=%d queries=%d solver=%.1fs wall=%.1fs" % (
         pid, args.tier, len(cases), len(prop), discharged, len(inconcl), len(known_hits), coverage["states"],
